@@ -384,7 +384,7 @@ def run(rep, tier, seed):
     rep.bounds['visibility_views'] = [{'fn': v[0], 'view': [v[1], v[2]], 'origin': list(v[3]), 'patterns': 1 << (v[1] * v[2])} for v in views]
     vn = 0
     fails = []
-    for n, _, fl in pmap(_vis_work, jobs):
+    for n, _, fl in dyn.pmap_w('vis', _vis_work, jobs):
         vn += n
         fails.extend(fl)
     def large_work(item):
@@ -407,7 +407,7 @@ def run(rep, tier, seed):
     worlds = [(2, 3), (3, 2), (3, 3), (2, 4), (4, 2), (1, 5)] if tier == 'quick' else [(2, 3), (3, 2), (3, 3), (3, 4), (4, 3), (2, 4), (4, 2), (1, 5), (5, 1), (2, 5)]
     ni_jobs = [(sh, i, 32, ['partially_occluded', 'raytracing']) for sh in worlds for i in range(32)]
     nn = nc = 0
-    for n, cases, fl in pmap(_ni_work, ni_jobs):
+    for n, cases, fl in dyn.pmap_w('ni', _ni_work, ni_jobs):
         nn += n
         nc += cases
         fails.extend(fl)
@@ -436,13 +436,13 @@ def run(rep, tier, seed):
             for lo in range(0, len(pats), 96):
                 wall_jobs.append((h, w, origin, pats[lo:lo + 96], seeds[:1]))
     sn = sp = 0
-    for n, pats, fl in pmap(_stoch_wall_work, wall_jobs):
+    for n, pats, fl in dyn.pmap_w('stoch_wall', _stoch_wall_work, wall_jobs):
         sn += n
         sp += pats
         fails.extend(fl)
     rep.part('stochastic_bounds_wall_rows', patterns=sp, evaluations=sn, heights=[4, 5, 6], widths=[5, 7, 9])
     sn = sp = 0
-    for n, pats, fl in pmap(_stoch_work, sjobs):
+    for n, pats, fl in dyn.pmap_w('stoch', _stoch_work, sjobs):
         sn += n
         sp += pats
         fails.extend(fl)
@@ -466,3 +466,6 @@ def run(rep, tier, seed):
         'with all replacements of all hidden/out-of-view cells; every pattern of the stochastic views. Non-trivial = all '
         'but the all-floor pattern of each view',
     )
+
+
+WORKERS = {'vis': _vis_work, 'ni': _ni_work, 'stoch_wall': _stoch_wall_work, 'stoch': _stoch_work}
